@@ -271,10 +271,10 @@ def select(rootdir, comps, dironly, sel, soft_dironly_links=False,
                     walk(i + 1, t, lx,
                          via_std or (child.kind == 'link' and child.std),
                          child)
-                elif (dirish(child)
-                      and all(x == '**' for x in comps[i + 1:])):
-                    # 'lnk/**' names the (non-standard) link itself in
-                    # implementations where ** matches zero directories
+                elif all(x == '**' for x in comps[i + 1:]):
+                    # 'x/**' names x itself (a link, a broken link, even a
+                    # file) in implementations where ** matches zero
+                    # directories without checking that x is a directory
                     sel.optional.setdefault(lx, child)
 
     walk(0, rootdir, (), False, root_entry or rootdir)
